@@ -237,22 +237,27 @@ func c08JudgeRawSmudge(in []byte, o c01SmudgeObs, cl map[string]int64) *c01Fail 
 	return nil
 }
 
-// class of a C08 case (fingerprints)
+// class of a C08 case (fingerprints): derived from the case only
 func c08Class(in c01Input, ch c01Chunking) string {
 	n := len(in.Data)
+	var parts []string
 	if fr := ch.firstRead(n); fr < n && fr < 1024 {
 		switch {
 		case c01ImplParses(in.Data):
-			return "pointer-split-across-reads"
+			parts = append(parts, "pointer-split-across-reads")
 		case fr > 0 && c01ImplParses(in.Data[:fr]):
-			return "first-read-ends-on-pointer-boundary"
+			parts = append(parts, "first-read-ends-on-pointer-boundary")
+		default:
+			parts = append(parts, "short-first-read")
 		}
-		return "short-first-read,kind=" + in.Kind
 	}
-	if n >= 1024 && in.PtrEnd > 0 && c01ImplParses(bytes.TrimSpace(in.Data[:1024])) {
-		return "blank-padded-pointer-1024-bytes-or-longer"
+	if n >= 1024 && in.PtrEnd > 0 && len(bytes.TrimSpace(in.Data[in.PtrEnd:1024])) == 0 {
+		parts = append(parts, "blank-padded-pointer-1024-bytes-or-longer")
 	}
-	return "kind=" + in.Kind + ",size" + c01SizeBucket(n)
+	if len(parts) == 0 || parts[0] == "short-first-read" {
+		parts = append(parts, "kind="+in.Kind+",size"+c01SizeBucket(n))
+	}
+	return strings.Join(parts, ",")
 }
 
 func (e *c01Env) c08Parts() []c01Part {
@@ -375,18 +380,11 @@ func (e *c01Env) c08OneshotChunkings(in c01Input, wt c01WT) []c01Chunking {
 	if wt.Kind != "absent" || n <= 1 {
 		return []c01Chunking{{}}
 	}
-	cand := []int{1, 1024, n - 1}
-	if in.PtrEnd > 0 {
-		cand = append(cand, in.PtrEnd)
-	}
 	var r []c01Chunking
-	for _, c := range c01CutSets(n, cand) {
-		if len(c.Cuts) <= 1 {
+	for _, c := range c08Chunkings(in, false, false) {
+		if c.Every == 0 || in.Name == "canon0" || in.Name == "var0-extra-trailing-newline" || in.Name == "ext0-bin-1023" {
 			r = append(r, c)
 		}
-	}
-	if in.Name == "canon0" || in.Name == "var0-extra-trailing-newline" || in.Name == "ext0-bin-1023" {
-		r = append(r, c01Chunking{Every: 1})
 	}
 	return r
 }
@@ -834,4 +832,9 @@ func c08Describe(c *vx.Check, e *c01Env) {
 	c.Bounds["inputs"] = len(e.inputs)
 	c.Bounds["max_cut_points"] = 2
 	c.Bounds["packet_payload_sizes"] = "1,1023,1024,1025,65516,1/65516"
+	if !e.thorough {
+		c.Bounds["quick_tier_reductions"] = "inproc: pairs of cut points and the every-position sweeps only for (file absent, separate EOF); non-canonical spellings of 2 base pointers; " +
+			"oneshot/filterprocess/git: inputs of base pointer 0 with fills {spaces, newlines, unknown line, x, binary}; oneshot: cuts {1, end of pointer, 1024, size-1} singly, 1 byte per read for 3 inputs, same-file only unchunked; " +
+			"filterprocess: packet sizes {65516,1,1024,1/65516}, same-file only 65516; git: git add and hash-object without file. thorough: full products"
+	}
 }
